@@ -227,6 +227,57 @@ func checkC02(c *Ctx, r *Report) {
 				ok, why = false, "no path takes the mismatch arm"
 			}
 			r.Check(ok, name+"|"+cm.kind+" mismatch", cm.ifi.Pos(), "mismatch → error, no session", why)
+			// ... and that is what the caller of the exported constructor gets: in the view of every
+			// exported function the handshake is spliced into, a path through the mismatch arm ends
+			// with that function returning no session and — for RAKP 2 — the incorrect-password
+			// sentinel itself (not the error of a later attempt, a wrapped or a replaced one)
+			for _, root := range c.LibFuncs() {
+				if root == m.Fn || root.Parent() != nil || unexportedName(root) || !c.libFn(root) || errResultIndex(root) < 0 {
+					continue
+				}
+				if !flatOf(root).Contains(cm.ifi) {
+					continue
+				}
+				rname := c.FnName(root)
+				ok2, n2 := true, 0
+				why2 := ""
+				complete := enumPaths(root, 2, 400000, func(p CPath) {
+					arm, on := p.Took(cm.ifi)
+					if !on || arm == cm.trueSucc {
+						return
+					}
+					ret, isRet := p.Last().(*ssa.Return)
+					if !isRet || ret.Parent() != root || len(ret.Results) != 2 {
+						return
+					}
+					n2++
+					if !isNilConst(p.Resolve(ret.Results[0])) {
+						ok2, why2 = false, "a session is returned on a path on which the comparison failed"
+						return
+					}
+					if cm.kind == "rakp2" {
+						good := false
+						if ld, isLd := p.Resolve(ret.Results[1]).(*ssa.UnOp); isLd {
+							if g, isG := ld.X.(*ssa.Global); isG && g.Name() == "ErrIncorrectPassword" && c.sentinelError(g) {
+								good = true
+							}
+						}
+						if !good {
+							ok2, why2 = false, "after a RAKP2 AuthCode mismatch the function does not return ErrIncorrectPassword (it goes on, or returns another error)"
+						}
+					} else if c.errOutcome(root, p) == 0 {
+						ok2, why2 = false, "after a RAKP4 ICV mismatch the function returns a nil error"
+					}
+				})
+				if !complete {
+					r.Unk(rname+"|"+cm.kind+" mismatch reaches the caller", cm.ifi.Pos(), "too many paths")
+					continue
+				}
+				if n2 == 0 {
+					ok2, why2 = false, "no path of the exported function takes the mismatch arm"
+				}
+				r.Check(ok2, rname+"|"+cm.kind+" mismatch reaches the caller", cm.ifi.Pos(), "mismatch → the caller gets the error, no session", why2)
+			}
 		}
 	}
 
